@@ -28,6 +28,9 @@ Resolve(cwd, raw) ==
    LET e == PL!Expand(EnvF, raw) IN IF e.o # "ok" THEN [o |-> e.o, p |-> <<>>] ELSE
    LET c == PL!Clean(PL!TrimProtocol(e.v)) IN
    IF PL!IsAbs(c) THEN [o |-> "ok", p |-> StrSeq(PL!Segs(c))] ELSE WalkC(cwd, PL!Segs(c))
+\* arguments the harness marked as syntactically canonical absolute paths come with their components
+ResolveA(st, c) == IF c.aok = "t" THEN [o |-> "ok", p |-> c.ac] ELSE Resolve(st.cwd, c.a)
+ResolveB(st, c) == IF c.bok = "t" THEN [o |-> "ok", p |-> c.bc] ELSE Resolve(st.cwd, c.b)
 Ambiguous(raw) == raw # <<>> /\ PL!AmbiguousExpand(EnvF, raw)
 
 HasFlag(c, x) == \E i \in 1..Len(c.f) : c.f[i] = x
@@ -53,7 +56,9 @@ QueryRes(st, c, p) == LET fs == st.fs  op == c.op IN
      [] op = "gid" -> IF ~Exists(fs, p) THEN RErr("Path::DoesNotExist") ELSE IF IsLink(fs, p) THEN RAny ELSE ROk(<<fs[p].gid>>)
      [] op = "owner" -> IF ~Exists(fs, p) THEN RErr("Path::DoesNotExist") ELSE IF IsLink(fs, p) THEN RAny ELSE ROk(<<fs[p].uid, fs[p].gid>>)
      [] op = "readlink_abs" -> IF IsLink(fs, p) THEN ROk(PV(fs[p].t)) ELSE RErrAny
-     [] op = "readlink" -> IF IsLink(fs, p) THEN ROk([p |-> RelC(fs[p].t, Parent(p)), c |-> "t", abs |-> "f"]) ELSE RErrAny
+     [] op = "readlink" -> IF ~IsLink(fs, p) THEN RErrAny
+                           ELSE IF fs[p].t = Parent(p) THEN RAny        \* D11: relative(p, p) is documented to return p itself
+                           ELSE ROk([p |-> RelC(fs[p].t, Parent(p)), c |-> "t", abs |-> "f"])
      [] op = "abs" -> ROk(PV(p))
      [] op = "entry" -> EntryRes(st, p)
      [] op \in ListQ -> IF IsDir(fs, p) THEN ROk(Listing(fs, p, op)) ELSE RErrAny
@@ -74,16 +79,16 @@ Expected(st, c) ==
   LET op == c.op IN
   IF op = "cwd" THEN R(st, ROk(PV(st.cwd)))
   ELSE IF op = "root" THEN R(st, ROk(PV(Root)))
-  ELSE LET ra == Resolve(st.cwd, c.a) IN
+  ELSE LET ra == ResolveA(st, c) IN
   IF ra.o # "ok" THEN (IF op \in BoolQ THEN R(st, ROk(BoolV(FALSE))) ELSE ArgErr(st, ra.o))
   ELSE LET p == ra.p IN
   IF op \in TwoPath THEN
      (IF op = "symlink" THEN
          \* target: relative spellings are taken relative to the directory of the link
-         LET rb == IF c.b # <<>> /\ ~PL!IsAbs(c.b) THEN Resolve(Parent(p), c.b) ELSE Resolve(st.cwd, c.b) IN
+         LET rb == IF c.b # <<>> /\ ~PL!IsAbs(c.b) THEN Resolve(Parent(p), c.b) ELSE ResolveB(st, c) IN
          IF p = Root THEN R(st, RErrAny)
          ELSE IF rb.o # "ok" THEN ArgErr(st, rb.o) ELSE Op_symlink(st, Own, p, rb.p)
-      ELSE LET rb == Resolve(st.cwd, c.b) IN
+      ELSE LET rb == ResolveB(st, c) IN
          IF rb.o # "ok" THEN ArgErr(st, rb.o)
          ELSE IF op = "move_p" THEN Op_move_p(st, p, rb.p)
          ELSE IF op = "copy" THEN Op_copy_b(st, Own, p, rb.p, [dm |-> 0, fm |-> 0, follow |-> FALSE])
@@ -104,6 +109,7 @@ Expected(st, c) ==
          [] op = "chmod_b" -> Op_chmod_b(st, p, ChmodOpts(c))
          [] op = "chown" -> Op_chown_b(st, p, [setu |-> TRUE, setg |-> TRUE, uid |-> c.m, gid |-> c.n, recursive |-> TRUE, follow |-> FALSE])
          [] op = "chown_b" -> Op_chown_b(st, p, ChownOpts(c))
+         [] op \in {"read", "read_all", "read_lines"} /\ IsLink(st.fs, p) -> R(st, RAny)     \* D10: Memfs refuses, the real filesystem follows
          [] op = "read" -> Op_read(st, p)
          [] op = "read_all" -> Op_read_all(st, p)
          [] op = "read_lines" -> Op_read_lines(st, p)
@@ -118,7 +124,7 @@ EntryOK(st, p, v) == LET fs == st.fs  n == fs[p]  e == v.e IN
                                  /\ e.ldir = TF(n.k = "link" /\ n.tk = "dir") /\ e.lfile = TF(n.k = "link" /\ n.tk = "file"))
    /\ v.nf = e
    /\ IF n.k = "link"
-      THEN /\ e.alt = PV(n.t) /\ e.rel = [p |-> RelC(n.t, Parent(p)), c |-> "t", abs |-> "f"]
+      THEN /\ e.alt = PV(n.t) /\ (n.t = Parent(p) \/ e.rel = [p |-> RelC(n.t, Parent(p)), c |-> "t", abs |-> "f"])
            /\ v.f1.path = PV(n.t) /\ v.f1.alt = PV(p) /\ v.f1.following = "t"       \* swapped exactly once
            /\ v.f2 = v.f1
       ELSE v.f1 = e /\ v.f2 = e
@@ -140,23 +146,23 @@ KindClass(fs, p) == IF p = Root THEN "root" ELSE IF ~Exists(fs, p) THEN
                         (IF ~Exists(fs, Parent(p)) THEN "none(noparent)" ELSE IF IsDir(fs, Parent(p)) THEN "none" ELSE "none(parent=" \o fs[Parent(p)].k \o ")")
                     ELSE IF fs[p].k = "dir" THEN (IF Children(fs, p) = {} THEN "dir(empty)" ELSE "dir(nonempty)")
                     ELSE IF fs[p].k = "file" THEN "file" ELSE "link->" \o fs[p].tk
-ArgClass(st, raw) == LET r == Resolve(st.cwd, raw) IN IF r.o # "ok" THEN "unresolvable:" \o r.o ELSE KindClass(st.fs, r.p)
-RelClass(st, c) == LET a == Resolve(st.cwd, c.a)  b == Resolve(st.cwd, c.b) IN
+ArgClass(st, r) == IF r.o # "ok" THEN "unresolvable:" \o r.o ELSE KindClass(st.fs, r.p)
+RelClass(st, c) == LET a == ResolveA(st, c)  b == ResolveB(st, c) IN
    IF a.o # "ok" \/ b.o # "ok" THEN "-" ELSE IF a.p = b.p THEN "same" ELSE IF IsPrefix(a.p, b.p) THEN "dst-in-src" ELSE IF IsPrefix(b.p, a.p) THEN "src-in-dst" ELSE "other"
 ExpClass(ex) == IF ex.o = "?" THEN "Any" ELSE IF ex.o = "*" THEN "Err" ELSE ex.o
-Sig(st, c, got, ex, what) == <<"BAD", c.op, ArgClass(st, c.a), IF c.op \in TwoPath THEN ArgClass(st, c.b) ELSE "-",
+Sig(st, c, got, ex, what) == <<"BAD", c.op, ArgClass(st, ResolveA(st, c)), IF c.op \in TwoPath THEN ArgClass(st, ResolveB(st, c)) ELSE "-",
                                IF c.op \in TwoPath THEN RelClass(st, c) ELSE "-", "got:" \o got.o, "exp:" \o ExpClass(ex), what>>
 
 \* modes of pre-existing files below a copy destination are not settled (Unconstrained): blank them on both sides
 StateOK(o, pre, post) ==
    \/ o.partial
-   \/ (IF o.paired THEN FALSE ELSE (post = o.st \/ post \in o.alt))
-PairedOK(o, pre, post, got) == IF got.o = "ok" THEN post = o.st ELSE post = pre
+   \/ (IF o.paired THEN FALSE ELSE (StEq(o.st, post) \/ \E a \in o.alt : StEq(a, post)))
+PairedOK(o, pre, post, got) == IF got.o = "ok" THEN StEq(o.st, post) ELSE post = pre
 
 JudgeStep(pre, s) ==
    LET c == s.c
        viol == IF s.same = "t" THEN "-" ELSE RepViolation(s.post)
-   IN IF Ambiguous(c.a) \/ Ambiguous(c.b) THEN << <<"skip", "ambiguous-expansion">> >>
+   IN IF (c.aok # "t" /\ Ambiguous(c.a)) \/ (c.bok # "t" /\ Ambiguous(c.b)) THEN << <<"skip", "ambiguous-expansion">> >>
       ELSE LET o == Expected(pre, c) IN
       IF s.r.o = "panic" THEN << Sig(pre, c, s.r, o.res, "panic") >>
       ELSE IF viol # "-" THEN << Sig(pre, c, s.r, o.res, "ILLFORMED:" \o viol) >>
@@ -166,16 +172,18 @@ JudgeStep(pre, s) ==
            IN IF resOK /\ stOK THEN << <<"ok", c.op, IF post # pre \/ s.r.o # "ok" THEN "nt" ELSE "tr">> >>
               ELSE << Sig(pre, c, s.r, o.res, IF ~resOK /\ ~stOK THEN "result+state" ELSE IF ~resOK THEN "result" ELSE "state") >>
 
-RECURSIVE JudgeSteps(_, _, _)
-JudgeSteps(pre, steps, i) == IF i > Len(steps) THEN <<>> ELSE JudgeStep(pre, steps[i]) \o JudgeSteps(pre, steps, i + 1)
-Judge(r) == LET v == RepViolation(r.pre) IN
-   IF v # "-" THEN << <<"skip", "pre-state-illformed", v>> >>
-   ELSE JudgeSteps(AbsOf(r.pre), r.steps, 1)
+\* tally update remembering group index * 1000 + step index of the first example of each class
+RECURSIVE TallySteps(_, _, _, _, _)
+TallySteps(tally, pre, steps, i, g) == IF i > Len(steps) THEN tally
+   ELSE TallySteps(UpdAll(tally, JudgeStep(pre, steps[i]), g * 1000 + i), pre, steps, i + 1, g)
+TallyGroup(tally, r, g) == LET v == RepViolation(r.pre) IN
+   IF v # "-" THEN Upd(tally, <<"skip", "pre-state-illformed", v>>, g * 1000)
+   ELSE TallySteps(tally, AbsOf(r.pre), r.steps, 1, g)
 
 VARIABLES l
 Init == l = 1 /\ TLCSet(1, <<>>) /\ TLCSet(2, 0)
 Next == /\ l <= Len(Recs)
-        /\ TLCSet(1, UpdAll(TLCGet(1), Judge(Recs[l]), l))
+        /\ TLCSet(1, TallyGroup(TLCGet(1), Recs[l], l))
         /\ TLCSet(2, TLCGet(2) + Len(Recs[l].steps))
         /\ l' = l + 1
 Done == (l = Len(Recs) + 1) => JsonSerialize(IOEnv.OUT, [checked |-> TLCGet(2), groups |-> Len(Recs), classes |-> TLCGet(1)])
